@@ -111,7 +111,10 @@ pub fn plan_for(property: &str) -> Option<(&'static str, Vec<PlanItem>)> {
         ),
         "C08" => (
             "C08",
-            vec![PlanItem { family: "lifecycle", run: c08_life, quick: 10000, thorough: 100000, determinism_check: true }],
+            vec![
+                PlanItem { family: "lifecycle", run: c08_life, quick: 10000, thorough: 100000, determinism_check: true },
+                PlanItem { family: "deaf_sender", run: c08_deaf_sender, quick: 600, thorough: 6000, determinism_check: false },
+            ],
         ),
         "C10" => (
             "C10",
@@ -902,6 +905,110 @@ fn c08_life(ctx: &CaseCtx) -> CaseReport {
     rep
 }
 
+/// C08 against a peer that does not take no for an answer: the application lets go of the stream
+/// (both halves dropped, or shutdown + reader dropped), the scripted peer acknowledges the local
+/// FIN with a data packet (so the acknowledgement is not taken for a close), never sends a FIN of
+/// its own and keeps sending in-order data at sub-second gaps for ten virtual minutes, ignoring
+/// the zero window it is shown. "Under any network behaviour": the connection object must still be
+/// gone within the bound (inactivity limit + 150 s) after the application let go.
+fn c08_deaf_sender(ctx: &CaseCtx) -> CaseReport {
+    use crate::events::{ApiOp, Ev, MS, SEC};
+    use crate::fam::hsscript as hs;
+    use librqbit_utp::verif::VerifEvent as V;
+    let mut rep = CaseReport::new(ctx.family, ctx.index, ctx.case_seed);
+    let mut rng = crate::prng::Prng::new(ctx.case_seed ^ 0xDEAF);
+    let mut cfg = hs::generate(ctx.case_seed);
+    cfg.silent_initiator = false;
+    let ipv4 = !cfg.ipv6;
+    let maxp = cfg.sock.max_payload(ipv4);
+    cfg.sock.rx_buf = Some(rng.usize_range(2 * maxp + 1, 8 * maxp));
+    let inact = *rng.pick(&[3u64, 10, 30]);
+    cfg.sock.remote_inactivity_timeout = Some(std::time::Duration::from_secs(inact));
+    cfg.sock.dont_wait_for_lastack = false;
+    let mut script = Vec::new();
+    for _ in 0..rng.range(0, 3) {
+        script.push(hs::Act::Write(rng.range(1, 3000) as usize));
+        script.push(hs::Act::PeerAckAll);
+        script.push(hs::Act::PeerData);
+    }
+    match rng.below(3) {
+        0 => {
+            script.push(hs::Act::DropWriter);
+            script.push(hs::Act::DropReader);
+        }
+        1 => {
+            script.push(hs::Act::DropReader);
+            script.push(hs::Act::DropWriter);
+        }
+        _ => {
+            script.push(hs::Act::Shutdown);
+            script.push(hs::Act::DropReader);
+        }
+    }
+    let gap = *rng.pick(&[100u64, 300, 500, 900]) * MS;
+    let n = (600 * SEC / gap) as usize;
+    for _ in 0..n {
+        script.push(hs::Act::PeerData);
+        script.push(hs::Act::Advance(gap));
+    }
+    cfg.script = script;
+    cfg.tail = 5 * SEC;
+    rep.desc = format!("deaf sender: inactivity limit {inact}s, data every {} ms for 600 s after the application let go; {}", gap / MS, cfg.describe());
+    let run = hs::run_hs(ctx.case_seed, &cfg, false);
+    if let Some(p) = &run.panicked {
+        rep.inconclusive.push(format!("panic during the run: {p}"));
+    }
+    let view = WireView::build(&run.events);
+    let mut let_go: Option<crate::events::Us> = None;
+    let mut halves = (false, false);
+    let mut dropped: Option<crate::events::Us> = None;
+    for e in &run.events {
+        match &e.ev {
+            Ev::Api { op: ApiOp::DropReader, .. } => {
+                halves.0 = true;
+            }
+            Ev::Api { op: ApiOp::DropWriter, .. } | Ev::Api { op: ApiOp::ShutdownCall, .. } => {
+                halves.1 = true;
+            }
+            Ev::Hook(V::VsockDropped { id, .. }) if id.local.port() == hs::REAL_PORT => {
+                dropped.get_or_insert(e.t);
+            }
+            _ => {}
+        }
+        if halves == (true, true) && let_go.is_none() {
+            let_go = Some(e.t);
+        }
+    }
+    if let Some(t0) = let_go {
+        rep.counters.inc("c08_deaf_sender_cases_judged");
+        let bound = (inact + 150) * SEC;
+        match dropped {
+            Some(t) if t <= t0 + bound => {
+                rep.counters.max("max_c08_deaf_sender_lifetime_after_let_go_ms", (t.saturating_sub(t0)) / MS);
+            }
+            Some(t) => rep.violate(
+                "C08",
+                "terminates",
+                "deaf sender: the connection outlived the bound after the application let go",
+                format!("let go at {t0} us, connection object dropped at {t} us (bound {} s); the peer kept sending into the zero window", bound / SEC),
+                Some(t0 + bound),
+            ),
+            None => rep.violate(
+                "C08",
+                "terminates",
+                "deaf sender: the connection never ended after the application let go",
+                format!("let go at {t0} us, connection object still alive at the end of the run ({} us); the peer kept sending into the zero window", run.end_time),
+                Some(t0 + bound),
+            ),
+        }
+    }
+    rep.counters.add("datagrams", view.pkts.len() as u64);
+    rep.nontrivial = let_go.is_some();
+    let end = run.end_time;
+    finish(&mut rep, ctx, &view, run.events, end);
+    rep
+}
+
 fn c13_accept(ctx: &CaseCtx) -> CaseReport {
     use crate::fam::accept as ac;
     let mut rep = CaseReport::new(ctx.family, ctx.index, ctx.case_seed);
@@ -1658,6 +1765,9 @@ pub fn duplex_causes(case_seed: u64, events: &[crate::events::Event], view: &Wir
     }
     if mon::diag::ended_with_unsent_segment_larger_than_window(events) {
         out.push("unsent-segment-cut-for-a-larger-window".to_string());
+    }
+    if std::env::var_os("UVH_DEBUG_CAUSES").is_some() {
+        eprintln!("duplex_causes: t_fail={t_fail} causes={out:?}");
     }
     out
 }
